@@ -3,6 +3,7 @@ JSON schema emitter
 """
 
 from collections import OrderedDict
+from copy import deepcopy
 from functools import partial
 from json import dump
 from operator import add
@@ -56,6 +57,7 @@ def json_schema(
     )
     if "$id" in intermediate_repr and "params" not in intermediate_repr:
         return intermediate_repr  # Somehow this function got JSON schema as input
+    intermediate_repr = deepcopy(intermediate_repr)
     if identifier is None:
         identifier: str = intermediate_repr.get(
             "$id",
